@@ -142,3 +142,16 @@ Qed.
 Corollary advance_ge s a b : wf_obs b -> nonneg a -> nonneg b ->
   off_le (olook s a) (olook s (advance a b)) /\ off_le (olook s b) (olook s (advance a b)).
 Proof. intros W Na Nb. split; [exact (advance_ge_l s a b W Na Nb)|exact (advance_ge_r s a b W Na Nb)]. Qed.
+
+(* a concrete pair of maps meeting the hypotheses of the theorems (non-vacuity) *)
+Definition ex_a : obs := Some [(0, (5, 10)); (2, (7, 0))].
+Definition ex_b : obs := Some [(0, (5, 3)); (1, (1, 1)); (2, (8, 0))].
+Definition offsets_example_statement : Prop :=
+  wf_obs ex_b /\ nonneg ex_a /\ nonneg ex_b
+  /\ advance ex_a ex_b = Some [(0, (5, 10)); (1, (1, 1)); (2, (8, 0))] /\ advance None ex_b = ex_b /\ advance ex_a None = ex_a.
+Lemma offsets_example : offsets_example_statement.
+Proof.
+  split; [vm_compute; auto|]. split; [|split; [|vm_compute; auto]].
+  - intros s. unfold olook, oread, ex_a; simpl. repeat (destruct (s =? _); [unfold off_le; simpl; lia|]). unfold off_le; simpl; lia.
+  - intros s. unfold olook, oread, ex_b; simpl. repeat (destruct (s =? _); [unfold off_le; simpl; lia|]). unfold off_le; simpl; lia.
+Qed.
